@@ -96,6 +96,8 @@ func c11Writers() []c11Writer {
 				a.Name, a.EntropyScore, a.EntropyTolerance = "A.retuned", 5.6, 0.05
 				s.AddSignature(&a)
 			}}},
+		{name: "flip(L:v1->v2)", ops: []func(*PebbleScanner, *storeProbes){add("L", 2)}},
+		{name: "delete(L)", ops: []func(*PebbleScanner, *storeProbes){func(s *PebbleScanner, sp *storeProbes) { s.DeleteSignature("L") }}},
 	}
 }
 
@@ -130,6 +132,11 @@ func c11Scenarios() []c11Scenario {
 		sc = append(sc, c11Scenario{readers: []int{r}, writers: []int{6}, bound: map[string]int{"quick": 2, "thorough": -1}})
 	}
 	sc = append(sc, c11Scenario{writers: []int{6, 2}, bound: map[string]int{"quick": 2, "thorough": 4}})
+	for _, r := range []int{0, 1, 3} {
+		for _, w := range []int{7, 8} {
+			sc = append(sc, c11Scenario{readers: []int{r}, writers: []int{w}, bound: map[string]int{"quick": 2, "thorough": -1}})
+		}
+	}
 	return sc
 }
 
@@ -143,6 +150,17 @@ func c11Seed(s *PebbleScanner, sp *storeProbes) {
 	e := detection.Signature{ID: "E", Name: "E.thr", TopologyHash: "eeeeeeeeeeeeeeeeeeeeeeeeeeeeeeee", FuzzyHash: sp.F1, EntropyScore: 4.99994, EntropyTolerance: 0.5, NodeCount: 40, LoopDepth: 3}
 	if err := s.AddSignatures([]*detection.Signature{&a, &b, &c, &d, &e}); err != nil {
 		panic(err)
+	}
+	// L was written by a version of the tool that stored the bare ID in its index entries (every
+	// lookup still reads that format)
+	l := c11SigV(sp, "L", 1)
+	l.Name = "L.legacy"
+	if err := s.AddSignatures([]*detection.Signature{&l}); err != nil {
+		panic(err)
+	}
+	c11RawSet(s, buildTopoIndexKey(l.TopologyHash, l.ID), []byte(l.ID))
+	if l.FuzzyHash != "" {
+		c11RawSet(s, buildFuzzyIndexKey(l.FuzzyHash, l.ID), []byte(l.ID))
 	}
 }
 
